@@ -1697,7 +1697,14 @@ pub fn c16_case(c: &C16Case, st: &mut Stats) -> CaseResult {
     }
 }
 fn c16_case_once(c: &C16Case, st: &mut Stats) -> CaseResult {
-    let Some((ptext, p)) = rep_text(&c.probe) else { return Ok(()) };
+    let Some((mut ptext, mut p)) = rep_text(&c.probe) else { return Ok(()) };
+    // one probe in eight is the shortest position command there is, the bare `position startpos`
+    // (no move list) - after earlier traffic that left the engine on some other board
+    if c.slice % 8 == 3 && REPLAY_START.with(|s| s.borrow().is_none()) {
+        ptext = "position startpos".to_string();
+        p = Pos::startpos();
+        st.label("probe_is_the_bare_startpos_command");
+    }
     if p.legal_moves().is_empty() {
         return Ok(());
     }
@@ -1791,7 +1798,7 @@ fn c16_case_once(c: &C16Case, st: &mut Stats) -> CaseResult {
 }
 fn c16_json(c: &C16Case) -> Value {
     let mut texts: Vec<String> = prefix_texts(c).into_iter().map(|x| x.0).collect();
-    let probe = rep_text(&c.probe).map(|x| x.0);
+    let probe = if c.slice % 8 == 3 { Some("position startpos".to_string()) } else { rep_text(&c.probe).map(|x| x.0) };
     if c.probe_in_prefix {
         if let Some(p) = &probe {
             let at = texts.len() / 2;
